@@ -367,6 +367,8 @@ def run(P, R, L):
     R.clause("GRD-14", "the size-bounded input list of a manual compaction keeps at least one file (an empty list trips "
              "`assert!(!files.is_empty())` on the compaction thread, which then never clears the scheduled flag)")
     K.grd14_manual_inputs(P, R, L, parts=("nonempty",))
+    R.clause("GRD-16", "a compaction is done as a trivial move only when it has a single input file and no overlapping parent-level file")
+    K.grd16_trivial_move(P, R, L)
     R.not_decided += ["that the background thread never panics (value-level reachability of unwrap/assert/index sites)",
                       "progress of data-dependent loops", "channel capacity / blocking send in schedule_task"]
     R.assumptions += ["one Mutex<GuardedDbFields> instance per database (class-level = instance-level)",
